@@ -135,7 +135,7 @@ class History:
         rng = self.rng
         ctx = self.ctx
         op = str(rng.choice(['orth', 'compress', 'addsub', 'apply', 'splitmerge', 'tdvp1', 'tdvp2', 'dmrg1', 'dmrg2', 'new', 'zeroq', 'mpo-arith', 'mpo-orth', 'mpo-new'],
-                            p=[.11, .11, .11, .08, .08, .08, .08, .06, .06, .06, .04, .06, .03, .04]))
+                            p=[.10, .10, .10, .08, .08, .07, .07, .06, .06, .06, .04, .10, .03, .05]))
         detail = {'history': self.hist + [op], 'model': self.name, 'L': self.L}
         if op == 'orth':
             o = self.pick('mps')
